@@ -764,7 +764,7 @@ pub fn gen_label(rng: &mut Rng, taken: &[String]) -> String {
 
 const STR_BODIES: &[&str] = &[
     "", "a", "Hello, world!", "two words", "tab\\tnl\\n", "q\\\"uote", "back\\\\slash", "; not a comment",
-    "x3000 #5 r0", "caf\u{e9}", "\u{2713} ok", "CR\\r", "  spaced  ", ".fill", "a:b,c", "0", "%!@#$^&*()",
+    "x3000 #5 r0", "caf\u{e9}", "caf\u{e9}\\n", "\u{65e5}\u{672c}\\t!", "\u{e9}\\\\\u{e9}", "a\u{2713}\\\"b", "\u{2713} ok", "CR\\r", "  spaced  ", ".fill", "a:b,c", "0", "%!@#$^&*()",
 ];
 
 #[derive(Clone, Debug)]
